@@ -1,13 +1,17 @@
 #!/usr/bin/env python3
-"""Robustness / sensitivity demonstration for the string-function part of rs2coq.
+"""Robustness / sensitivity demonstration for rs2coq: the string functions
+(part 2, labels P.. / N..) and the management entry points of
+src/internal_api.rs (part 4, labels IP.. / IN..).
 
-For every variant: copy /repo/src to a scratch repo, replace the body of one of
-the four functions, run rs2coq on the scratch repo, rebuild
-PinChecks/PcStrFnGen.vo and compare the outcome with the expectation
-(meaning-preserving rewrite -> proofs pass; change of meaning / outside the
-subset -> a proof fails).  The pristine generated files are restored at the end.
+For every variant: copy /repo/src to a scratch repo (tempfile.mkdtemp()), edit
+one function, run rs2coq on the scratch repo, rebuild the obligation file
+(PinChecks/PcStrFnGen.vo or PinChecks/PcInternalGen.vo) and compare the outcome
+with the expectation (meaning-preserving rewrite -> proofs pass; change of
+meaning / outside the subset -> a proof fails).  The pristine generated files
+are restored at the end.
 
-usage: python3 tools/rs2coq_demo.py   (development tool; rebuilds coq/PinChecks/PcStrFnGen.vo per variant and restores the generated files)
+usage: python3 tools/rs2coq_demo.py [label-prefix ..]
+       (development tool; e.g. `rs2coq_demo.py I` runs the part-4 variants only)
 """
 import os
 import re
@@ -172,44 +176,265 @@ VARIANTS = [
 ]
 
 
+# ---------------------------------------------------------------- part 4
+# (label, expectation, [edit ..]) on src/internal_api.rs; an edit is
+#   ("body", fn, new body)            replace the whole body of the entry point
+#   ("sub", fn, old, new)             replace old (whitespace-insensitive, exactly one occurrence inside fn) by new
+#   ("resub", fn, regex, replacement) the same with a regular expression (re.S)
+#   ("prepend", fn, text)             insert text as the first statement of fn
+IFILE = "src/internal_api.rs"
+
+IVARIANTS = [
+    ("IP0 unmodified sources", "pass", []),
+    ("IP1 add_policy_internal: watcher notification as `if !(a && b) {} else { emit }`", "pass", [
+        ("sub", "add_policy_internal",
+         """if rule_added && self.has_auto_notify_watcher_enabled() {
+                    self.emit(Event::PolicyChange, event_data);
+                }""",
+         """if !(rule_added && self.has_auto_notify_watcher_enabled()) {
+                } else {
+                    self.emit(Event::PolicyChange, event_data);
+                }""")]),
+    ("IP2 remove_policy_internal: `let auto_links = self.has_auto_build_role_links_enabled();` bound first", "pass", [
+        ("prepend", "remove_policy_internal", "let auto_links = self.has_auto_build_role_links_enabled();"),
+        ("sub", "remove_policy_internal", "|| !self.has_auto_build_role_links_enabled()", "|| !auto_links")]),
+    ("IP3 add_policies_internal: operands of the guard reordered, \"g\" != sec", "pass", [
+        ("sub", "add_policies_internal",
+         """if sec != "g"
+            || !self.has_auto_build_role_links_enabled()
+            || !rules_added""",
+         """if !rules_added
+            || "g" != sec
+            || !self.has_auto_build_role_links_enabled()""")]),
+    ("IP4 remove_policies_internal: positive guard around the link update, no early return", "pass", [
+        ("resub", "remove_policies_internal", r"""if sec != "g".*Ok\(rules_removed\)\s*\}\s*$""",
+         """if sec == "g" && self.has_auto_build_role_links_enabled() && rules_removed {
+            self.build_incremental_role_links(EventData::RemovePolicies(
+                sec.to_owned(),
+                ptype.to_owned(),
+                rules,
+            ))?;
+        }
+        Ok(rules_removed)
+    }""")]),
+    ("IP5 remove_filtered_policy_internal: nested ifs and a let for the adapter's answer", "pass", [
+        ("resub", "remove_filtered_policy_internal", r"""^\{\s*if self\.has_auto_save_enabled\(\).*?return Ok\(\(false, vec!\[\]\)\);\s*\}""",
+         """{
+        if self.has_auto_save_enabled() {
+            let saved = self
+                .get_mut_adapter()
+                .remove_filtered_policy(sec, ptype, field_index, field_values.clone())
+                .await?;
+            if !saved {
+                return Ok((false, vec![]));
+            }
+        }""")]),
+    ("IP6 add_policy_internal: no cfg, one `if rule_added` around both events, Ok(false)/Ok(true) spelled out", "pass", [
+        ("body", "add_policy_internal", """{
+        if self.has_auto_save_enabled()
+            && !self.get_mut_adapter().add_policy(sec, ptype, rule.clone()).await?
+        {
+            return Ok(false);
+        }
+        let rule_added = self.get_mut_model().add_policy(sec, ptype, rule.clone());
+        if rule_added {
+            if self.has_auto_notify_watcher_enabled() {
+                self.emit(
+                    Event::PolicyChange,
+                    EventData::AddPolicy(sec.to_owned(), ptype.to_owned(), rule.clone()),
+                );
+            }
+            self.emit(Event::ClearCache, EventData::ClearCache);
+        }
+        if !rule_added {
+            return Ok(false);
+        }
+        if sec == "g" && self.has_auto_build_role_links_enabled() {
+            self.build_incremental_role_links(EventData::AddPolicy(sec.to_owned(), ptype.to_owned(), rule))?;
+        }
+        Ok(true)
+    }""")]),
+    ("IN1 (i) remove_policies_internal: EventData::RemovePolicies(sec, sec, rules) in the incremental update", "fail", [
+        ("sub", "remove_policies_internal",
+         """self.build_incremental_role_links(EventData::RemovePolicies(
+                sec.to_owned(),
+                ptype.to_owned(),""",
+         """self.build_incremental_role_links(EventData::RemovePolicies(
+                sec.to_owned(),
+                sec.to_owned(),""")]),
+    ("IN2 (ii) remove_policy_internal: EventData::RemovePolicy(sec, sec, rule) in the WATCHER event", "fail", [
+        ("sub", "remove_policy_internal",
+         "EventData::RemovePolicy(sec.to_owned(), ptype.to_owned(), {",
+         "EventData::RemovePolicy(sec.to_owned(), sec.to_owned(), {")]),
+    ("IN3 (iii) remove_policies_internal: `!rules_removed` dropped from the guard before the link update", "fail", [
+        ("sub", "remove_policies_internal",
+         """|| !self.has_auto_build_role_links_enabled()
+            || !rules_removed""",
+         "|| !self.has_auto_build_role_links_enabled()")]),
+    ("IN4 (iv) add_policy_internal: the model call placed before the adapter call", "fail", [
+        ("body", "add_policy_internal", """{
+        let rule_added = self.get_mut_model().add_policy(sec, ptype, rule.clone());
+        if self.has_auto_save_enabled()
+            && !self.get_mut_adapter().add_policy(sec, ptype, rule.clone()).await?
+        {
+            return Ok(false);
+        }
+        if rule_added && self.has_auto_notify_watcher_enabled() {
+            self.emit(
+                Event::PolicyChange,
+                EventData::AddPolicy(sec.to_owned(), ptype.to_owned(), rule.clone()),
+            );
+        }
+        if rule_added {
+            self.emit(Event::ClearCache, EventData::ClearCache);
+        }
+        if sec != "g" || !self.has_auto_build_role_links_enabled() || !rule_added {
+            return Ok(rule_added);
+        }
+        self.build_incremental_role_links(EventData::AddPolicy(sec.to_owned(), ptype.to_owned(), rule))?;
+        Ok(rule_added)
+    }""")]),
+    ("IN5 (v) remove_filtered_policy_internal: ClearCache emitted after the `?` of the link update", "fail", [
+        ("resub", "remove_filtered_policy_internal",
+         r"""#\[cfg\(feature = "cached"\)\]\s*\{\s*if rules_removed \{\s*self\.emit\(Event::ClearCache, EventData::ClearCache\);\s*\}\s*\}""", ""),
+        ("resub", "remove_filtered_policy_internal", r"""Ok\(\(rules_removed, rules\)\)\s*\}\s*$""",
+         """if rules_removed {
+            self.emit(Event::ClearCache, EventData::ClearCache);
+        }
+        Ok((rules_removed, rules))
+    }""")]),
+    ("IN6 add_policies_internal: watcher notified AFTER the link update", "fail", [
+        ("body", "add_policies_internal", """{
+        if self.has_auto_save_enabled()
+            && !self.get_mut_adapter().add_policies(sec, ptype, rules.clone()).await?
+        {
+            return Ok(false);
+        }
+        let rules_added = self.get_mut_model().add_policies(sec, ptype, rules.clone());
+        if rules_added {
+            self.emit(Event::ClearCache, EventData::ClearCache);
+        }
+        if sec == "g" && self.has_auto_build_role_links_enabled() && rules_added {
+            self.build_incremental_role_links(EventData::AddPolicies(sec.to_owned(), ptype.to_owned(), rules.clone()))?;
+        }
+        if rules_added && self.has_auto_notify_watcher_enabled() {
+            self.emit(Event::PolicyChange, EventData::AddPolicies(sec.to_owned(), ptype.to_owned(), rules));
+        }
+        Ok(rules_added)
+    }""")]),
+    ("IN7 remove_policy_internal: auto-notify test dropped", "fail", [
+        ("sub", "remove_policy_internal", "if rule_removed && self.has_auto_notify_watcher_enabled() {", "if rule_removed {")]),
+    ("IN8 add_policies_internal: a refusing adapter answers Ok(true)", "fail", [
+        ("sub", "add_policies_internal", "return Ok(false);", "return Ok(true);")]),
+    ("IN9 remove_policies_internal: sec and ptype swapped in the model call", "fail", [
+        ("sub", "remove_policies_internal", "self.get_mut_model().remove_policies(sec, ptype, {",
+         "self.get_mut_model().remove_policies(ptype, sec, {")]),
+    ("IN10 remove_policy_internal: ClearCache compiled out (cfg(not(feature = \"cached\")))", "fail", [
+        ("sub", "remove_policy_internal", '#[cfg(feature = "cached")]', '#[cfg(not(feature = "cached"))]')]),
+    ("IN11 add_policy_internal: ClearCache emitted unconditionally", "fail", [
+        ("sub", "add_policy_internal",
+         """if rule_added {
+                self.emit(Event::ClearCache, EventData::ClearCache);
+            }""",
+         "self.emit(Event::ClearCache, EventData::ClearCache);")]),
+    ("IN12 remove_policy_internal: error of the link update ignored (outside the subset)", "fail", [
+        ("resub", "remove_policy_internal", r"""(self\.build_incremental_role_links\(EventData::RemovePolicy\(\s*sec\.to_owned\(\),\s*ptype\.to_owned\(\),\s*rule,\s*\)\))\?;""",
+         r"let _ = \1;")]),
+    ("IN13 add_policies_internal: full rebuild instead of the incremental update (cfg(not(incremental)) chosen)", "fail", [
+        ("sub", "add_policies_internal", '#[cfg(not(feature = "incremental"))]\n        {\n            self.build_role_links()?;',
+         '#[cfg(feature = "incremental")]\n        {\n            self.build_role_links()?;'),
+        ("resub", "add_policies_internal", r"""#\[cfg\(feature = "incremental"\)\]\s*\{\s*self\.build_incremental_role_links""",
+         '#[cfg(not(feature = "incremental"))]\n        {\n            self.build_incremental_role_links')]),
+    ("IN14 remove_filtered_policy_internal: adapter asked only AFTER a successful removal (outside: if let)", "fail", [
+        ("sub", "remove_filtered_policy_internal", "if sec != \"g\" || !self.has_auto_build_role_links_enabled() {",
+         "if let Some(_) = rules.first() {} if sec != \"g\" || !self.has_auto_build_role_links_enabled() {")]),
+]
+
+
+def ws_regex(old):
+    return r"\s*".join(re.escape(t) for t in re.findall(r"\w+|[^\w\s]", old))
+
+
+def apply_internal_edits(src, edits):
+    for ed in edits:
+        imp = re.search(r"impl\s*<\s*T\s*>\s*InternalApi\s+for\s+T", src)
+        fn = ed[1]
+        m = re.search(r"async\s+fn\s+%s\s*\(" % fn, src[imp.end():])
+        i = src.index("{", imp.end() + m.end())
+        old = pins.balanced(src, i)
+        assert old is not None and src.count(old) == 1, fn
+        if ed[0] == "body":
+            new = ed[2]
+        elif ed[0] == "prepend":
+            new = "{\n        " + ed[2] + old[1:]
+        elif ed[0] == "sub":
+            rx = ws_regex(ed[2])
+            assert len(re.findall(rx, old)) == 1, (fn, ed[2][:40], len(re.findall(rx, old)))
+            new = re.sub(rx, lambda _m: ed[3], old)
+        elif ed[0] == "resub":
+            assert len(re.findall(ed[2], old, re.S)) == 1, (fn, ed[2][:40], len(re.findall(ed[2], old, re.S)))
+            new = re.sub(ed[2], ed[3], old, flags=re.S)
+        else:
+            raise AssertionError(ed[0])
+        src = src.replace(old, new)
+    return src
+
+
 def run(cmd, **kw):
     return subprocess.run(cmd, stdout=subprocess.PIPE, stderr=subprocess.STDOUT, text=True, **kw)
+
+
+def first_error(out, vfile):
+    """theorem and message of the first Coq error in vfile"""
+    m = re.search(r'File "\./%s", line (\d+).*?\n(Error:.*?)(?:\nmake|\Z)' % re.escape(vfile), out, re.S)
+    if not m:
+        return str(out.strip().split("\n")[-3:])
+    lines = open(os.path.join(COQ, vfile)).read().split("\n")
+    thm = ""
+    for k in range(int(m.group(1)) - 1, -1, -1):
+        mm = re.match(r"\s*(?:Theorem|Lemma|Example)\s+(\w+)", lines[k])
+        if mm:
+            thm = mm.group(1)
+            break
+    msg = " ".join(m.group(2).split())
+    um = re.search(r"Unable to unify.*", msg)
+    if um and len(msg) > 110:
+        msg = "(unprovable leaf) " + re.sub(r"\{\|.*?\|\}", "{|..|}", um.group(0))
+    return "%s: %s" % (thm, msg[:150])
 
 
 def main():
     only = sys.argv[1:]
     results = []
-    for label, expect, fn, body in VARIANTS:
+    suites = [(label, expect, ("str", fn, body)) for label, expect, fn, body in VARIANTS] + \
+             [(label, expect, ("internal", edits)) for label, expect, edits in IVARIANTS]
+    for label, expect, what in suites:
         if only and not any(label.startswith(o) for o in only):
             continue
         shutil.rmtree(SCRATCH, ignore_errors=True)
         shutil.copytree("/repo/src", os.path.join(SCRATCH, "src"))
-        if fn is not None:
-            path = os.path.join(SCRATCH, FILES[fn])
+        if what[0] == "str":
+            fn, body = what[1], what[2]
+            vfile, gfile = "PinChecks/PcStrFnGen.v", "StrFnGen.v"
+            if fn is not None:
+                path = os.path.join(SCRATCH, FILES[fn])
+                src = open(path, encoding="utf-8").read()
+                old = pins.fn_body(src, r"pub\s+fn\s+%s\s*\(" % fn)
+                assert old is not None and src.count(old) == 1, fn
+                open(path, "w", encoding="utf-8").write(src.replace(old, body))
+        else:
+            vfile, gfile = "PinChecks/PcInternalGen.v", "InternalGen.v"
+            path = os.path.join(SCRATCH, IFILE)
             src = open(path, encoding="utf-8").read()
-            old = pins.fn_body(src, r"pub\s+fn\s+%s\s*\(" % fn)
-            assert old is not None and src.count(old) == 1, fn
-            open(path, "w", encoding="utf-8").write(src.replace(old, body))
+            new = apply_internal_edits(src, what[1])
+            assert (new != src) == bool(what[1]), label
+            open(path, "w", encoding="utf-8").write(new)
         env = dict(os.environ, VERIF_REPO=SCRATCH)
-        tr = run([sys.executable, os.path.join(HERE, "rs2coq.py"), os.path.join(COQ, "Gen", "EffectorGen.v")], env=env)
-        mk = run(["timeout", "600", "make", "PinChecks/PcStrFnGen.vo"], cwd=COQ)
+        run([sys.executable, os.path.join(HERE, "rs2coq.py"), os.path.join(COQ, "Gen", "EffectorGen.v")], env=env)
+        mk = run(["timeout", "900", "make", vfile + "o"], cwd=COQ)
         ok = mk.returncode == 0
-        why = ""
-        if not ok:
-            m = re.search(r'File "\./PinChecks/PcStrFnGen\.v", line (\d+).*?\n(Error:.*?)(?:\n\n|\nmake)', mk.stdout, re.S)
-            if m:
-                line = open(os.path.join(COQ, "PinChecks", "PcStrFnGen.v")).read().split("\n")[int(m.group(1)) - 1]
-                thm = ""
-                lines = open(os.path.join(COQ, "PinChecks", "PcStrFnGen.v")).read().split("\n")
-                for k in range(int(m.group(1)) - 1, -1, -1):
-                    mm = re.match(r"(?:Theorem|Lemma)\s+(\w+)", lines[k])
-                    if mm:
-                        thm = mm.group(1)
-                        break
-                why = "%s: %s" % (thm, " ".join(m.group(2).split())[:90])
-            else:
-                why = mk.stdout.strip().split("\n")[-3:]
-        gen = open(os.path.join(COQ, "Gen", "StrFnGen.v")).read()
+        why = "" if ok else first_error(mk.stdout, vfile)
+        gen = open(os.path.join(COQ, "Gen", gfile)).read()
         note = ""
         fm = re.search(r"\(\* translation of (\w+) failed: (.*?) \*\)", gen, re.S)
         if fm:
@@ -222,7 +447,8 @@ def main():
     # restore the pristine generated files
     env = dict(os.environ, VERIF_REPO="/repo")
     run([sys.executable, os.path.join(HERE, "rs2coq.py"), os.path.join(COQ, "Gen", "EffectorGen.v")], env=env)
-    mk = run(["timeout", "600", "make", "PinChecks/PcStrFnGen.vo", "PinChecks/PcEffectorGen.vo"], cwd=COQ)
+    mk = run(["timeout", "900", "make", "PinChecks/PcStrFnGen.vo", "PinChecks/PcEffectorGen.vo",
+              "PinChecks/PcInternalGen.vo"], cwd=COQ)
     print("restored from /repo:", "build ok" if mk.returncode == 0 else "BUILD FAILED")
     shutil.rmtree(SCRATCH, ignore_errors=True)
     print("%d/%d variants behaved as expected" % (sum(results), len(results)))
